@@ -29,7 +29,7 @@ var HostileKinds = []string{
 	"tx-dup-conversion-later", "tx-truncated", "tx-bitflip", "tx-hostile-numbers", "tx-100", "opr-bad-address", "opr-wrong-version",
 	"opr-dup", "opr-zero-asset", "spr-nonholder", "spr-dup", "spr-wrong-version", "cross-chain", "tx-zero-self-burn", "tx-unknown-json",
 	"tx-empty-extids", "opr-few", "spr-bad-content", "tx-overflow-conversion", "tx-many-outputs", "spr-bad-sig", "opr-lying-difficulty",
-	"tx-big-content", "spr-empty-staker", "tx-missing-type-length-collision", "tx-later-conversion-unconvertible",
+	"tx-big-content", "spr-empty-staker", "tx-missing-type-length-collision", "tx-later-conversion-unconvertible", "spr-prices-far-from-opr",
 }
 
 // TaggedHostileKinds reproduce recorded legacy-era findings (DESIGN.md §7).
@@ -273,6 +273,31 @@ func (x *Hostile) Apply(kind string, v *View, s *forge.BlockSpec) string {
 		doc := append([]byte(`{"version":1,`), pad...)
 		doc = append(doc, []byte(`"transactions":[]}`)...)
 		s.Tx = append(s.Tx, signedRaw(doc, k))
+	case "spr-prices-far-from-opr":
+		// from 2.0 on: the stakers' records price everything at twice what the miners report. Whatever the
+		// tolerance rule of the height makes of it (rates of some assets zeroed, or no rates at all for the
+		// block), the block must be applied.
+		if h < e.V20 || len(s.SPR) < 25 || len(s.OPR) < 25 {
+			return ""
+		}
+		sp := map[string]uint64{}
+		for k2, x2 := range w.Prices {
+			sp[k2] = x2 * 2
+		}
+		var st []forge.Key
+		for _, a := range TopPEG(v.Balances, 100) {
+			if k2, ok := x.M.byAddr[a]; ok && !k2.IsEth() {
+				st = append(st, k2)
+			}
+		}
+		if len(st) > 30 {
+			st = st[:30]
+		}
+		if len(st) < 25 {
+			return ""
+		}
+		s.SPR = w.StdSPRs(h, st, sp)
+		desc = "winning staking records price every asset at twice the winning mining record"
 	case "tx-later-conversion-unconvertible":
 		// a funded batch whose FIRST conversion is fine and whose second (or third) one goes into an asset
 		// that has no rate (yet), or into a destination closed at this height: the batch is refused as a
